@@ -260,8 +260,9 @@ func runFaultFamily(s *Sim, prop string) {
 
 // connected returns the link on which the broker currently has an established connection.
 func (fc *faultCtx) connected() *Link {
-	for i := len(fc.y.s.Net.Links) - 1; i >= 0; i-- {
-		l := fc.y.s.Net.Links[i]
+	links := fc.y.allLinks()
+	for i := len(links) - 1; i >= 0; i-- {
+		l := links[i]
 		if l.Alive() && l.bc != nil && l.bc.Connected && !l.blackhole {
 			return l
 		}
